@@ -9,6 +9,7 @@ from .core import AnalysisError
 MUTATORS = {
     "append", "extend", "insert", "pop", "remove", "clear", "add", "update", "discard",
     "setdefault", "sort", "reverse", "popitem", "__setitem__", "__delitem__",
+    "difference_update", "intersection_update", "symmetric_difference_update",
 }
 
 MAX_PATHS = 12000
